@@ -31,6 +31,7 @@ VAL = {v[0]: v for v in VALUES}
 SURELY_HUGE_FORCE = {'nan', '+inf', '-inf', '+1e300', '-1e300'}
 STATE = ('qpos', 'qvel', 'act')
 KNOWN_RANK = 'C30:newton-rank-deficient-mju_error-on-huge-finite-state'
+KNOWN_RK4 = 'C30:rk4-substages-unchecked-nonfinite-state-after-step'
 
 
 def warn_view(lib, d):
@@ -56,6 +57,16 @@ def body_has_dof(m, b):
   while b > 0:
     if int(m.body_dofnum[b]) > 0:
       return True
+    b = int(par[b])
+  return False
+
+
+def body_below_free_joint(m, b):
+  par = m.body_parentid
+  while b > 0:
+    for j in range(int(m.body_jntadr[b]), int(m.body_jntadr[b]) + int(m.body_jntnum[b])):
+      if int(m.jnt_type[j]) == 0:
+        return True
     b = int(par[b])
   return False
 
@@ -179,12 +190,28 @@ def run_injection(lib, variant, ck, case):
     for i in range(m.nu):
       if is_bad(float(ctrl_eff[i]), M) and not (clamp_on and int(m.actuator_ctrllimited[i])):
         sure_badctrl = True
+    # forces that must produce a bad acceleration, judged on the values finally in place (a later injection may have
+    # overwritten an earlier one): nan/inf propagate through J'f to every dof of the chain; a finite 1e300 only where the
+    # Jacobian is certainly non-zero (generalized force on a dof; any wrench on a body below a free joint)
+    def final_val(f, i):
+      for ff, ii, v in step_inputs:
+        if ff == f and ii == i:
+          return v
+      return float(getattr(d, f).reshape(-1)[i])
     sure_force = False
     for target, idx, vk, n in applied:
-      if vk in SURELY_HUGE_FORCE:
-        if target == 'qfrc_applied':
+      if target not in ('qfrc_applied', 'xfrc_applied'):
+        continue
+      v = final_val(target, idx)
+      nonfin = v != v or abs(v) == float('inf')
+      huge = abs(v) >= 1e299
+      if target == 'qfrc_applied' and (nonfin or huge):
+        sure_force = True
+      if target == 'xfrc_applied':
+        b = idx // 6
+        if nonfin and body_has_dof(m, b):
           sure_force = True
-        if target == 'xfrc_applied' and body_has_dof(m, idx // 6):
+        if huge and body_below_free_joint(m, b):
           sure_force = True
     # twin for the BADCTRL law: same data, ctrl zeroed ("set all to 0 if any are bad")
     if sure_badctrl and act_on and bp < 0 and bv < 0 and not m.nhistory:
@@ -216,65 +243,59 @@ def run_injection(lib, variant, ck, case):
         if f == 'act' and any(t == 'act' for t, i, vk, n in applied) and not did_reset:
           continue      # an injected bad activation that never reaches a force is outside the statement's quantifier
         if not np.all(np.isfinite(a)):
-          raise Violation('%s: %s not finite after mj_step (%s) [variant=%s]' % (what, f, a[~np.isfinite(a)][:3], variant),
-                          bucket='nonfinite-' + f)
+          msg = '%s: %s not finite after mj_step (%s) [variant=%s]' % (what, f, a[~np.isfinite(a)][:3], variant)
+          if int(m.opt.integrator) == E.mjINT_RK4:
+            # known finding: the Runge-Kutta sub-stages are not covered by mj_checkPos/Vel/Acc
+            ck.violation(msg, dict(xml=gm.xml, seed=seed, inj=inj, noreset=noreset, mode=mode, presteps=presteps),
+                         bucket='nonfinite-rk4', fingerprint=KNOWN_RK4)
+            labels.append('nonfinite-after-step:RK4')
+            return
+          raise Violation(msg, bucket='nonfinite-' + f)
 
     if not noreset:
-      did_reset = bool(w[W['pos'], 1] or w[W['vel'], 1] or w[W['acc'], 1]) and float(d.time) <= dt * (1 + 1e-12)
-      # reference: reset state stepped once (reset clears ctrl / applied forces / warm start / time)
-      if bp >= 0 or bv >= 0 or w[W['acc'], 1]:
+      acc_d = bool(w[W['acc'], 1])
+      did_reset = bool(w[W['pos'], 1] or w[W['vel'], 1] or acc_d) and float(d.time) <= dt * (1 + 1e-12)
+      late_force = any(f != 'ctrl' for f, i, v in step_inputs)
+      ref_acc = False
+      # reference: a freshly reset mjData stepped once (reset clears state, ctrl, applied forces, warm start, time).
+      # Inputs written between mj_step1 and mj_step2 survive a reset that happened in mj_step1 (bad qpos/qvel); a reset
+      # in mj_step2 (BADQACC) wipes them and the step continues from the reset state without inputs.
+      if bp >= 0 or bv >= 0 or acc_d:
         ref = lib.make_data(m)
 
-        def between_ref():      # inputs written between mj_step1 and mj_step2 are written after the reset as well
+        def between_ref():
           for f, i, v in step_inputs:
             getattr(ref, f).reshape(-1)[i] = v
-        do_step(lib, m, ref, mode, between_ref)
+        do_step(lib, m, ref, mode, None if acc_d else between_ref)
         refbits = state_bits(ref)
-      late_force = bool(step_inputs) and any(f != 'ctrl' for f, i, v in step_inputs)
-      if bp >= 0 and late_force and (w[W['acc'], 1] or ref is not None and warn_view(lib, ref)[W['acc'], 1]):
-        # reset in mj_step1, then an injected force made mj_step2 reset again: only the common end state is asserted
-        reached = True
-        if not same_bits(st1, refbits):
-          raise Violation('step1 reset + step2 reset: data differs from the reference [variant=%s]' % variant,
-                          bucket='reset-twice')
-      elif bp >= 0:
-        reached = True
         ref_acc = bool(warn_view(lib, ref)[W['acc'], 1])
-        if w[W['pos'], 1] < 1 and not (w[W['acc'], 1] and ref_acc):
-          # (exception: the reset state itself diverges -> BADQACC resets again and clears the BADQPOS counter)
-          raise Violation('qpos[%d] was bad before the step but BADQPOS was not raised [variant=%s]' % (bp, variant),
-                          bucket='missing-BADQPOS')
-        if w[W['pos'], 1] < 1:
-          labels.append('reset-state-diverges')
-        elif w[W['pos'], 0] != bp:
-          raise Violation('BADQPOS lastinfo=%d, first bad index is %d' % (w[W['pos'], 0], bp), bucket='lastinfo-BADQPOS')
-        if not same_bits(st1, refbits):
-          raise Violation('after BADQPOS the data is not (reset state stepped once) [variant=%s]' % variant,
-                          bucket='reset-BADQPOS')
-      elif bv >= 0 and late_force and (w[W['acc'], 1] or warn_view(lib, ref)[W['acc'], 1]):
+      first = 'pos' if bp >= 0 else ('vel' if bv >= 0 else None)
+      if first:
         reached = True
+        name = 'BADQ' + first.upper()
+        bad_idx = bp if first == 'pos' else bv
+        if acc_d:
+          # a second reset (mj_checkAcc) cleared the counter of the first one; legitimate only if the reset state itself
+          # diverges (fresh mjData also raises BADQACC) or inputs were written after the mj_step1 reset
+          labels.append('reset-twice')
+          if not (ref_acc or late_force):
+            raise Violation('%s reset, then BADQACC although a fresh mjData steps cleanly [variant=%s]' % (name, variant),
+                            bucket='unexplained-BADQACC-after-reset')
+        else:
+          if w[W[first], 1] < 1:
+            raise Violation('q%s[%d] was bad before the step but %s was not raised [variant=%s]' % (
+                first, bad_idx, name, variant), bucket='missing-' + name)
+          if w[W[first], 0] != bad_idx:
+            raise Violation('%s lastinfo=%d, first bad index is %d' % (name, w[W[first], 0], bad_idx),
+                            bucket='lastinfo-' + name)
         if not same_bits(st1, refbits):
-          raise Violation('step1 reset + step2 reset: data differs from the reference [variant=%s]' % variant,
-                          bucket='reset-twice')
-      elif bv >= 0:
-        reached = True
-        ref_acc = bool(warn_view(lib, ref)[W['acc'], 1])
-        if w[W['vel'], 1] < 1 and not (w[W['acc'], 1] and ref_acc):
-          # (exception: the reset state itself diverges -> BADQACC resets again and clears the BADQVEL counter)
-          raise Violation('qvel[%d] was bad before the step but BADQVEL was not raised [variant=%s]' % (bv, variant),
-                          bucket='missing-BADQVEL')
-        if w[W['vel'], 1] < 1:
-          labels.append('reset-state-diverges')
-        elif w[W['vel'], 0] != bv:
-          raise Violation('BADQVEL lastinfo=%d, first bad index is %d' % (w[W['vel'], 0], bv), bucket='lastinfo-BADQVEL')
-        if not same_bits(st1, refbits):
-          raise Violation('after BADQVEL the data is not (reset state stepped once) [variant=%s]' % variant,
-                          bucket='reset-BADQVEL')
+          raise Violation('after %s the data is not (reset state stepped once) [variant=%s]' % (name, variant),
+                          bucket='reset-' + name)
       else:
         if w[W['pos'], 1] or w[W['vel'], 1]:
           raise Violation('BADQPOS/BADQVEL raised although no position/velocity was nan or beyond mjMAXVAL '
                           '[variant=%s]' % variant, bucket='spurious-warning')
-        if w[W['acc'], 1]:
+        if acc_d:
           reached = True
           if not same_bits(st1, refbits):
             raise Violation('after BADQACC the data is not (reset state, forward, stepped) [variant=%s]' % variant,
@@ -291,9 +312,6 @@ def run_injection(lib, variant, ck, case):
               raise Violation('bad ctrl on an unclamped actuator but BADCTRL was not raised [variant=%s]' % variant,
                               bucket='missing-BADCTRL')
             zc.ctrl[:] = 0
-            for f, i, v in step_inputs:
-              if f != 'ctrl':
-                pass
 
             def between_zero():
               for f, i, v in step_inputs:
@@ -304,8 +322,7 @@ def run_injection(lib, variant, ck, case):
             if not same_bits(st1, state_bits(zc)):
               raise Violation('bad ctrl: result differs from the same step with ctrl = 0 [variant=%s]' % variant,
                               bucket='badctrl-zero')
-            # ctrl itself is an input and must not be modified by the engine (documented: "local copy")
-      if ref is not None and warn_view(lib, ref)[W['acc'], 1]:
+      if ref_acc:
         # the model is ill-posed at its own reset state (a fresh mjData stepped once already raises BADQACC, e.g. a
         # singular inertia matrix): resetting cannot produce finite values; counted, not judged for finiteness
         labels.append('reset-state-diverges')
@@ -381,10 +398,16 @@ def run_unstable(lib, variant, ck, case, nsteps):
       t0 = float(d.time)
       lib.mj_step(m, d)
       bits = state_bits(d)
-      for f, a in zip(STATE + ('time',), bits):
-        if not np.all(np.isfinite(a)):
-          raise Violation('unstable model: %s not finite after step %d [variant=%s]' % (f, k, variant),
-                          bucket='nonfinite-' + f)
+      nonfin = [f for f, a in zip(STATE + ('time',), bits) if not np.all(np.isfinite(a))]
+      if nonfin:
+        msg = 'unstable model: %s not finite after step %d [variant=%s]' % (nonfin, k, variant)
+        if int(m.opt.integrator) == E.mjINT_RK4:
+          ck.violation(msg, dict(xml=gm.xml, seed=seed, vscale=vscale, cscale=cscale), bucket='nonfinite-rk4',
+                       fingerprint=KNOWN_RK4)
+          ck.case(nontrivial=True, key=('unstable-rk4', gm.xml, seed, vscale, cscale, variant),
+                  labels=['unstable', 'nonfinite-after-step:RK4'])
+          return
+        raise Violation(msg, bucket='nonfinite-' + nonfin[0])
       w = warn_view(lib, d)
       if float(d.time) < t0 + 0.5 * dt:
         # time went backwards: a reset happened; it must be announced and leave (reset state stepped once)
@@ -467,6 +490,90 @@ def run_fd(lib, variant, ck, case):
     delete(lib, d)
 
 
+# ------------------------------------------------------------------------------------------- direct pipeline calls
+
+def add_transmissions(gm, pick):
+  """Append site+refsite, slider-crank and body (adhesion) transmissions to a generated model (text level)."""
+  sites = [x for x in gm.info['sites'] if x != 's0']
+  bodies = gm.info['bodies']
+  extra = ''
+  if len(sites) >= 1:
+    extra += '<motor name="xs" site="%s" refsite="s0" gear="0.5 -0.4 0.3 0.2 -0.7 0.6"/>' % sites[pick % len(sites)]
+  if len(sites) >= 2:
+    extra += '<general name="xc" cranksite="%s" slidersite="%s" cranklength="0.3"/>' % (sites[0], sites[-1])
+  if bodies:
+    extra += '<adhesion name="xa" body="%s" ctrlrange="0 1"/>' % bodies[pick % len(bodies)]
+  if not extra:
+    return gm.xml
+  if '<actuator>' in gm.xml:
+    return gm.xml.replace('</actuator>', extra + '</actuator>')
+  return gm.xml.replace('</mujoco>', '<actuator>%s</actuator></mujoco>' % extra)
+
+
+def forward_strategy():
+  models = mg.models(max_bodies=4, sensors=True, actuators=True, stateful_actuators=True, tendons=True, equalities=True,
+                     opt_kwargs=dict(sleep=False))
+  return st.tuples(models, mg.state_seed(), st.sampled_from(['qpos', 'qpos', 'qvel', 'act', 'mocap_pos', 'all-qpos']),
+                   st.integers(0, 10 ** 6), st.sampled_from(['nan', '+inf', '-inf', '+1e300', '+2max', '+half']),
+                   st.sampled_from(['mj_forward', 'mj_forward', 'mj_inverse', 'mj_step1+mj_step2-noreset', 'mj_fwdPosition']))
+
+
+def run_forward(lib, variant, ck, case):
+  """The pipeline functions below mj_step have no input checks: a non-finite state must not make them write outside
+  their arrays or hang (the values they compute are of course garbage)."""
+  gm, seed, target, r, vk, fn = case
+  E = lib.enums
+  M = float(E.mjMAXVAL)
+  xml = add_transmissions(gm, r)
+  try:
+    m = lib.model_from_xml(xml)
+  except mj.MjError:
+    try:
+      m = lib.model_from_xml(gm.xml)
+      xml = gm.xml
+    except mj.MjError:
+      ck.discard('compile')
+      return
+  d = lib.make_data(m)
+  try:
+    mg.apply_state(lib, m, d, seed)
+    lib.mj_forward(m, d)
+    val = VAL[vk][1](M)
+    if target == 'all-qpos':
+      d.qpos[:] = val
+      idx = -1
+    else:
+      a = getattr(d, target)
+      if not a.size:
+        ck.discard('forward:empty-target')
+        return
+      idx = r % a.size
+      a.reshape(-1)[idx] = val
+    trn = sorted(set(int(x) for x in np.asarray(m.actuator_trntype))) if m.nu else []
+    asanproc.journal(dict(family='forward', variant=variant, xml=xml, seed=seed, target=target, idx=idx, value=vk, call=fn))
+    ps0 = int(d.pstack)
+    outcome = 'returned'
+    try:
+      if fn == 'mj_step1+mj_step2-noreset':
+        m.opt.disableflags = int(m.opt.disableflags) | E.mjDSBL_AUTORESET
+        lib.mj_step1(m, d)
+        lib.mj_step2(m, d)
+      else:
+        getattr(lib, fn)(m, d)
+    except mj.MjError as e:
+      outcome = 'mju_error'          # a catchable error is an acceptable way to refuse garbage
+      ck.label('forward:mju_error:' + str(e)[:40].split(':')[0])
+    if outcome == 'returned' and int(d.pstack) != ps0:
+      raise Violation('%s on a state with bad %s returned with pstack=%d' % (fn, target, d.pstack), bucket='forward-stack')
+    ck.case(nontrivial=VAL[vk][2] or target == 'all-qpos', key=('forward', xml, seed, target, idx, vk, fn, variant),
+            sample=dict(family='forward', variant=variant, call=fn, target=target, idx=idx, value=vk, trntypes=trn,
+                        outcome=outcome),
+            labels=['forward', 'forward:' + fn, 'forward:target=' + target, 'forward:variant=' + variant] +
+                   ['forward:trntype=%d' % t for t in trn])
+  finally:
+    delete(lib, d)
+
+
 def handler(job):
   import time
   t0 = time.time()
@@ -476,6 +583,8 @@ def handler(job):
   name = '%s-%s-%d' % (job['family'], variant, job['shard'])
   if job['family'] == 'inject':
     ck.run_hypothesis(lambda case: run_injection(lib, variant, ck, case), case_strategy(), job['n'], name=name)
+  elif job['family'] == 'forward':
+    ck.run_hypothesis(lambda case: run_forward(lib, variant, ck, case), forward_strategy(), job['n'], name=name)
   elif job['family'] == 'fd':
     ck.run_hypothesis(lambda case: run_fd(lib, variant, ck, case), fd_strategy(), job['n'], name=name)
   else:
